@@ -372,6 +372,11 @@ class _Helper:
                     self.expr = _let_expression(self.body, set(self.params))
                     # a let-helper called as a whole statement is inlined as statements (keeps the sharing of its locals)
                     self.let = self.expr is not None
+                if self.expr is None and any(isinstance(s_, ast.If) for s_ in self.body) and \
+                        all(r_.value is not None for s_ in self.body for r_ in ast.walk(s_) if isinstance(r_, ast.Return)) \
+                        and _always_returns(self.body):
+                    self.expr = _decision_tree(self.body, set(self.params))
+                    self.let = self.expr is not None      # whole-statement calls keep the statement form
 
     def _is_self_call(self, call):
         f = call.func
@@ -447,6 +452,55 @@ def _bool_search(body):
     for _k, cond, k in reversed(steps):
         e = _ite(k, cond, e)
     return e
+
+
+def _decision_tree(body, params, env=None, depth=0):
+    """a predicate written as a decision tree - nested `if`s whose leaves are `return <expr>`, with explaining locals in
+    between (bound once, to something pure) - is the conditional expression of its paths:
+    `if c: return a` + rest -> `a if c else <rest>` (boolean constants folded to and / or / not); None if not of that form"""
+    env = dict(env or {})
+    if depth > 12:
+        return None
+    if not body:
+        return ast.Constant(value=None)
+    s, rest = body[0], body[1:]
+    if isinstance(s, ast.Return):
+        if s.value is None:
+            return ast.Constant(value=None)
+        return _Subst(env).visit(_clone(s.value))
+    if isinstance(s, ast.Assign) and len(s.targets) == 1 and isinstance(s.targets[0], ast.Name):
+        nm = s.targets[0].id
+        if nm in env or nm in params or not _pure(s.value, allow_call=False):
+            return None
+        env[nm] = _Subst(env).visit(_clone(s.value))
+        return _decision_tree(rest, params, env, depth + 1)
+    if isinstance(s, ast.If):
+        cond = _Subst(env).visit(_clone(s.test))
+        then = _decision_tree(list(s.body) + ([] if _always_returns(s.body) else rest), params, env, depth + 1)
+        other = _decision_tree(list(s.orelse) + ([] if (s.orelse and _always_returns(s.orelse)) else rest), params, env,
+                               depth + 1)
+        if then is None or other is None:
+            return None
+        # a branch that only adds early exits and then falls through to the common rest:
+        #   (G and R) if c else R  ==  (not c or G) and R        (G or R) if c else R  ==  (c and G) or R
+        if isinstance(then, ast.BoolOp) and len(then.values) >= 2:
+            def flat(e, op):
+                return [x for v in e.values for x in (flat(v, op) if isinstance(v, ast.BoolOp) and type(v.op) is op
+                                                       else [v])] if isinstance(e, ast.BoolOp) and type(e.op) is op else [e]
+            op = type(then.op)
+            tv, ov = flat(then, op), flat(other, op)
+            if len(tv) > len(ov) and [ast.dump(x) for x in tv[len(tv) - len(ov):]] == [ast.dump(x) for x in ov]:
+                g = tv[:len(tv) - len(ov)]
+                g = g[0] if len(g) == 1 else ast.BoolOp(op=op(), values=g)
+                if op is ast.And:
+                    head = ast.BoolOp(op=ast.Or(), values=[_not(cond), g])
+                    return ast.BoolOp(op=ast.And(), values=[head] + ov)
+                head = ast.BoolOp(op=ast.And(), values=[cond, g])
+                return ast.BoolOp(op=ast.Or(), values=[head] + ov)
+        return _ite(then, cond, other)
+    if isinstance(s, ast.Pass) or (isinstance(s, ast.Expr) and isinstance(s.value, ast.Constant)):
+        return _decision_tree(rest, params, env, depth + 1)
+    return None
 
 
 def _let_expression(body, params):
@@ -641,15 +695,20 @@ def _fresh(name, taken):
     return new
 
 
-def _prepare_body(h, bound, fn, keep=(), dead_after=frozenset()):
-    """copy of the helper body with parameters substituted and colliding locals renamed -> (prefix stmts, body)"""
+def _prepare_body(h, bound, fn, keep=(), dead_after=frozenset(), result_name=None):
+    """copy of the helper body with parameters substituted and colliding locals renamed -> (prefix stmts, body)
+    `result_name` = (R, T): the helper's local R, which is what it returns, is the caller's variable T"""
     body = _clone(h.body)
     holder = ast.Module(body=body, type_ignores=[])
     locals_h = _bound_names(ast.FunctionDef(name="_", args=h.fn.args, body=body, decorator_list=[]))
     assigned_params = locals_h & set(bound)
     taken = _names_used(fn) | set(bound)
     ren = {}
+    if result_name is not None:
+        ren[result_name[0]] = ast.Name(id=result_name[1], ctx=ast.Load())
     for n in sorted(locals_h - set(bound)):
+        if n in ren:
+            continue
         if n in taken and n not in keep:
             ren[n] = ast.Name(id=_fresh(n, taken | set(ren)), ctx=ast.Load())
     prefix = []
@@ -835,7 +894,20 @@ def _try_stmt(s, fn, cls, h):
     live = {x.id for x in _own_walk(fn) if isinstance(x, ast.Name) and isinstance(x.ctx, ast.Load) and id(x) not in inside
             and (in_loop or x.lineno > s.lineno)}
     dead = frozenset(a.id for a in bound.values() if isinstance(a, ast.Name) and a.id not in live)
-    prefix, body = _prepare_body(h, bound, fn, keep=keep, dead_after=dead)
+    # `T = helper(..)` where the helper builds a local R and returns it: R *is* T
+    result_name = None
+    if ctx == "assign" and target is not None:
+        rets = [n for n in ast.walk(ast.Module(body=h.body, type_ignores=[])) if isinstance(n, ast.Return)]
+        names = {n.value.id if isinstance(n.value, ast.Name) else None for n in rets}
+        if len(names) == 1 and None not in names:
+            r_ = names.pop()
+            h_names = {x.id for b_ in h.body for x in ast.walk(b_) if isinstance(x, ast.Name)}
+            h_locals = _bound_names(ast.FunctionDef(name="_", args=h.fn.args, body=h.body, decorator_list=[]))
+            if r_ != target and r_ in h_locals and r_ not in bound and target not in h_names and \
+                    target not in {a.id for a in bound.values() if isinstance(a, ast.Name)} and \
+                    not any(isinstance(x, ast.Name) and x.id == target for a in bound.values() for x in ast.walk(a)):
+                result_name = (r_, target)
+    prefix, body = _prepare_body(h, bound, fn, keep=keep, dead_after=dead, result_name=result_name)
     has_value_return = any(isinstance(n, ast.Return) and n.value is not None for b in body for n in ast.walk(b))
     if ctx == "return":
         if not _always_returns(body):
